@@ -839,7 +839,12 @@ pub(crate) async fn invoke_command_in_subshell_and_get_output(
     #[cfg(feature = "verif-hooks")]
     let mut async_reader = crate::verif::AsyncReader::new(reader)?;
 
-    let cmd_join_handle = tokio::spawn(run_substitution_command(subshell, params, s));
+    // N.B. The command gets a thread of its own (like pipeline stages): it writes to the pipe
+    // synchronously, so on a runtime worker it could keep the task that drains the pipe (when
+    // this substitution is itself nested in a task) from ever running when workers are scarce.
+    let cmd_join_handle = tokio::task::spawn_blocking(move || {
+        tokio::runtime::Handle::current().block_on(run_substitution_command(subshell, params, s))
+    });
 
     let output_str = async_reader.read_to_string().await?;
 
